@@ -951,6 +951,113 @@ def rule_r8(prog, res) -> None:
             res.violation("C01.R8", gb, p.node or gb.node, "the grid returned for weighted counting does not contain the configured limits as edges or is not sorted / unique", key_extra="weight-grid-edges")
 
 
+def rule_r9(prog, res) -> None:
+    """separation weighting works for every configuration that asks for it: the resolution of the weighting grid is
+    optional in the configuration (declared `int | None`), so a value read from the configuration must not reach the
+    arithmetic of get_ang_bins unguarded — followed from the arithmetic use up the call chain (symbolic store)"""
+    from .. import symx
+
+    gb = prog.func("get_ang_bins")
+    res.touch(gb)
+    # the parameter that is used in arithmetic on the weighting path
+    arith = set()
+    for x in walk_no_nested(gb.node):
+        if isinstance(x, ast.BinOp):
+            for side in (x.left, x.right):
+                if isinstance(side, ast.Name) and side.id in gb.param_names():
+                    arith.add(side.id)
+    if not arith:
+        raise AnalysisError("C01.R9: no parameter of get_ang_bins is used in arithmetic (weighting grid size not recognised)")
+
+    def optional_ann(e_orig, fi) -> str | None:
+        """the declared type of an attribute read when it admits None"""
+        if not isinstance(e_orig, ast.Attribute):
+            return None
+        for ty in prog.func_env(fi).type_of(e_orig.value):
+            if ty[0] == "cls":
+                for c_ in prog.mro(ty[1]):
+                    ann = getattr(c_, "class_ann", {}).get(e_orig.attr) if hasattr(c_, "class_ann") else None
+                    if ann is not None:
+                        t = unparse(ann)
+                        if "None" in t or "Optional" in t:
+                            return t
+        return None
+
+    checked = 0
+    problems = []
+
+    def follow(f, param, depth):
+        nonlocal checked
+        if depth > 3:
+            return
+        callers = [(g, c) for g in prog.funcs for c in calls_in(g) if f in prog.resolve_call(g, c).funcs()]
+        for g, c in callers:
+            pos = [q for q in f.param_names() if q not in ("self", "cls")]
+            orig = kwarg(c, param)
+            if orig is None and param in pos and pos.index(param) < len(c.args):
+                orig = c.args[pos.index(param)]
+            if orig is None:
+                continue  # the callee's own default applies
+            checked += 1
+            res.touch(g)
+            if isinstance(orig, ast.Constant):
+                if orig.value is None:
+                    problems.append((g, c, f"{f.name}({param}=None)"))
+                continue
+            ann = optional_ann(orig, g)
+            # is the value guarded against None on the way to this call?
+            guarded = False
+            for p in symx.explore(prog, g, skip_tests=("logger",)):
+                for ev in p.calls():
+                    if ev.node is c:
+                        a_sub = kwarg(ev.expr, param) or (ev.expr.args[pos.index(param)] if param in pos and pos.index(param) < len(ev.expr.args) else None)
+                        txt = unparse(a_sub) if a_sub is not None else ""
+                        if a_sub is not None and unparse(orig) != txt and not (isinstance(a_sub, ast.Attribute) and optional_ann(orig, g)):
+                            guarded = True  # replaced by something else (a default, `x or 50`, a conditional expression)
+                        if any((unparse(t) in (f"{txt} is None",) and not pol) or (unparse(t) in (f"{txt} is not None",) and pol) for t, pol in p.literals()):
+                            guarded = True
+            if ann is not None and not guarded:
+                problems.append((g, c, f"{unparse(orig)} (declared {ann})"))
+            elif isinstance(orig, ast.Name) and orig.id in g.param_names() and not guarded:
+                follow(g, orig.id, depth + 1)
+
+    # is the parameter guarded inside a function before it is handed on?
+    def guarded_inside(f, param) -> bool:
+        for x in walk_no_nested(f.node):
+            if isinstance(x, ast.If) and isinstance(x.test, ast.Compare) and isinstance(x.test.left, ast.Name) and x.test.left.id == param and any(isinstance(o, (ast.Is, ast.IsNot)) for o in x.test.ops):
+                return True
+            if isinstance(x, ast.Assign) and any(isinstance(t, ast.Name) and t.id == param for t in x.targets) and isinstance(x.value, (ast.BoolOp, ast.IfExp)):
+                return True
+        return False
+
+    for param in sorted(arith):
+        # callers of get_ang_bins hand the value on from their own parameter: follow it unless they guard it
+        for g in prog.funcs:
+            for c in calls_in(g):
+                if gb in prog.resolve_call(g, c).funcs():
+                    pos = gb.param_names()
+                    a_ = kwarg(c, param) or (c.args[pos.index(param)] if pos.index(param) < len(c.args) else None)
+                    if isinstance(a_, ast.Name) and a_.id in g.param_names():
+                        if guarded_inside(g, a_.id):
+                            checked += 1
+                            res.ok("C01.R9", res.site(g, f"{a_.id} is None"), f"{g.name} replaces a missing {a_.id} before it reaches the arithmetic of get_ang_bins")
+                        else:
+                            follow(g, a_.id, 0)
+    if checked == 0:
+        raise AnalysisError("C01.R9: the resolution of the weighting grid could not be followed to its origin")
+    for g, c, what in problems:
+        res.violation(
+            "C01.R9",
+            g,
+            c,
+            f"the weighting resolution {what} can be None and reaches `weight_res + 1` in get_ang_bins without a guard: a measurement with rweight set and no explicit resolution fails with a TypeError "
+            "instead of using the default resolution",
+            key_extra=f"optional-resolution-unguarded-{g.qualname}",
+        )
+    if not problems:
+        res.ok("C01.R9", "weighting resolution", "no optional configuration value reaches the grid arithmetic unguarded")
+
+
 RULES = [
     ("C01.R1", rule_r1, QUICK),
     ("C01.R2", rule_r2, QUICK),
@@ -960,4 +1067,5 @@ RULES = [
     ("C01.R6", rule_r6, QUICK),
     ("C01.R7", rule_r7, QUICK),
     ("C01.R8", rule_r8, QUICK),
+    ("C01.R9", rule_r9, QUICK),
 ]
